@@ -76,13 +76,13 @@ open Mdsort.Proofs.World (Calls All bind_eq pure_eq call_bind ret_bind call_bind
 open Mdsort.Proofs.Own (runO runO_bind runO_ret runO_call)
 
 /-- `evalP` replays the pure evaluation. -/
-theorem evalP_replay (env : Env) (tf : Int → Option Bytes) (e : Expr) (m : Msg) (fl : MFlags)
+theorem evalP_replay (env : Env) (e : Expr) (m : Msg) (fl : MFlags)
     (orcl : Nat → Call → Res) (i : Nat) :
-    let as := (evalTop env tf e m fl).answers orcl i
-    (runO orcl (evalP env tf e m fl) i).1 = (evalR env tf e m fl as).1 ∧
-    (evalR env tf e m fl as).2.length = as.length ∧
-    runO orcl (askAll (evalR env tf e m fl as).2) i =
-      (as, (runO orcl (evalP env tf e m fl) i).2.1, (runO orcl (evalP env tf e m fl) i).2.2) :=
+    let as := (evalTop env e m fl).answers orcl i
+    (runO orcl (evalP env e m fl) i).1 = (evalR env e m fl as).1 ∧
+    (evalR env e m fl as).2.length = as.length ∧
+    runO orcl (askAll (evalR env e m fl as).2) i =
+      (as, (runO orcl (evalP env e m fl) i).2.1, (runO orcl (evalP env e m fl) i).2.2) :=
   Ask.toProg_replay _ orcl i
 
 /-! ## which calls evaluation issues -/
@@ -143,8 +143,8 @@ theorem evalCall_sysCall (q : Req) : Calls EvalCall (sysCall q) :=
 
 /-- **Evaluation issues only `open("/dev/null")`, `fork`, `waitpid`, `close` and `stat`** - for every rule tree,
 message and whatever the calls return. -/
-theorem evalP_calls (env : Env) (tf : Int → Option Bytes) (e : Expr) (m : Msg) (fl : MFlags) :
-    Calls EvalCall (evalP env tf e m fl) :=
+theorem evalP_calls (env : Env) (e : Expr) (m : Msg) (fl : MFlags) :
+    Calls EvalCall (evalP env e m fl) :=
   calls_toProg evalCall_sysCall _
 
 theorem EvalCall.quiet {c : Call} (h : EvalCall c) : c.mutating = false := by
@@ -157,22 +157,23 @@ end Mdsort.Proofs
 namespace Mdsort.Proofs
 open Mdsort Mdsort.Model
 
-/-- The environment without its three oracles (what `processMessage` hands to `evalP`). -/
+/-- The environment without its three oracles `command`, `isDir`, `fileTime` (what `processMessage` hands to `evalP`;
+`timeFormat` stays). -/
 def noSys (env : Env) : Env :=
   { env with command := fun _ => -1, isDir := fun _ => false, fileTime := fun _ => none }
 
 /-- The answer `a` to question `q` is what the pure oracles of `env` say. -/
-def AnsOK (env : Env) (tf : Int → Option Bytes) : Req → SysAns → Prop
+def AnsOK (env : Env) : Req → SysAns → Prop
   | .command av, a => ansStatus a = env.command av
   | .isDir p, a => ansIsDir a = env.isDir p
-  | .fileTime _ f, a => ansFileTime tf f a = env.fileTime f
+  | .fileTime p _, a => ansTimes a = env.fileTime p
 
 /-- Every question of `rq` has its answer in `as` (same position), and it agrees with the oracles of `env`. -/
-def Answered (env : Env) (tf : Int → Option Bytes) (rq : List Req) (as : List SysAns) : Prop :=
-  ∀ (k : Nat) (q : Req), rq[k]? = some q → ∃ a, as[k]? = some a ∧ AnsOK env tf q a
+def Answered (env : Env) (rq : List Req) (as : List SysAns) : Prop :=
+  ∀ (k : Nat) (q : Req), rq[k]? = some q → ∃ a, as[k]? = some a ∧ AnsOK env q a
 
-theorem Answered.left {env : Env} {tf : Int → Option Bytes} {r1 r2 : List Req} {as : List SysAns}
-    (h : Answered env tf (r1 ++ r2) as) : Answered env tf r1 as := by
+theorem Answered.left {env : Env} {r1 r2 : List Req} {as : List SysAns}
+    (h : Answered env (r1 ++ r2) as) : Answered env r1 as := by
   intro k q hk
   have hlt : k < r1.length := by
     rcases Nat.lt_or_ge k r1.length with h' | h'
@@ -180,14 +181,14 @@ theorem Answered.left {env : Env} {tf : Int → Option Bytes} {r1 r2 : List Req}
     · rw [List.getElem?_eq_none h'] at hk; cases hk
   exact h k q (by rw [List.getElem?_append_left hlt]; exact hk)
 
-theorem Answered.right {env : Env} {tf : Int → Option Bytes} {r1 r2 : List Req} {as : List SysAns}
-    (h : Answered env tf (r1 ++ r2) as) : Answered env tf r2 (as.drop r1.length) := by
+theorem Answered.right {env : Env} {r1 r2 : List Req} {as : List SysAns}
+    (h : Answered env (r1 ++ r2) as) : Answered env r2 (as.drop r1.length) := by
   intro k q hk
   obtain ⟨a, ha, hok⟩ := h (r1.length + k) q (by rw [List.getElem?_append_right (Nat.le_add_right _ _)]; simpa using hk)
   exact ⟨a, by rw [List.getElem?_drop]; exact ha, hok⟩
 
-theorem Answered.head {env : Env} {tf : Int → Option Bytes} {q : Req} {as : List SysAns}
-    (h : Answered env tf [q] as) : AnsOK env tf q (as.headD (.status (-1))) := by
+theorem Answered.head {env : Env} {q : Req} {as : List SysAns}
+    (h : Answered env [q] as) : AnsOK env q (as.headD (.status (-1))) := by
   obtain ⟨a, ha, hok⟩ := h 0 q rfl
   cases as with
   | nil => cases ha
